@@ -30,19 +30,16 @@ META = {
 FILES = ["wait_test.go"]
 OBLIGATIONS = [
     "c13_explore_sound",
-    "c13_no_early_timeout", "c13_no_early_timeout_cleared", "c13_no_early_timeout_strong_refuted",
+    "c13_no_early_timeout", "c13_no_early_timeout_cleared", "c13_no_early_timeout_strong",
     "c13_deadline_change_seen_refuted", "c13_deadline_rearm_partial",
-    "c13_none_then_set_refuted", "c13_set_zero_set_refuted", "c13_accept_deadline_refuted",
-    "c13_deadline_extend_multi_refuted",
+    "c13_deadline_change_seen_rw", "c13_accept_deadline_refuted",
     "c13_close_wakes_all", "c13_error_wakes_all", "c13_after_close",
     "c13_single_waiter_no_lost_wakeup", "c13_single_waiter_set_deadline",
-    "c13_multi_writer", "c13_multi_accepter", "c13_multi_reader_refuted",
+    "c13_multi_writer", "c13_multi_accepter", "c13_multi_reader",
     "c13_repairs_checked", "c13_repairs_strong_checked",
 ]
 PARTIAL = ["c13_deadline_rearm_partial"]
-REFUTED = ["c13_no_early_timeout_strong_refuted", "c13_deadline_change_seen_refuted", "c13_none_then_set_refuted",
-           "c13_set_zero_set_refuted", "c13_accept_deadline_refuted", "c13_deadline_extend_multi_refuted",
-           "c13_multi_reader_refuted"]
+REFUTED = ["c13_deadline_change_seen_refuted", "c13_accept_deadline_refuted"]
 
 GEN = os.path.join(V.VERIF, "coq", "wait", "GenWait.v")
 
